@@ -388,4 +388,25 @@ def check(case, mon):
             mon.violation("upwind-kron-expansion", {"matrix": name, "k": k})
     mon.count("kron_checked")
 
+    # re-discretization in the SAME data dictionary with the same Upwind object after the
+    # boundary conditions were replaced (same fluxes): the matrices must follow the new
+    # assignment, nothing of the first discretization may survive
+    if case["bc_mode"] != "default":
+        case2 = dict(case, bc_seed=int(case["bc_seed"]) + 1,
+                     bc_mode=("mixed" if case["bc_mode"] != "mixed" else "all_dir"),
+                     p_dir=1.0 - float(case.get("p_dir", 0.5)) * 0.8)
+        bc2, is_dir2, is_neu2 = _bc(case2, g)
+        if np.any(is_dir2 != is_dir):
+            discr = pp.Upwind("transport")
+            data = pp.initialize_data({}, "transport", {discr.flux_array_key: q, "bc": bc})
+            discr.discretize(g, data)
+            data[pp.PARAMETERS]["transport"]["bc"] = bc2
+            discr.discretize(g, data)
+            M = data[pp.DISCRETIZATION_MATRICES]["transport"]
+            mon.count("rediscretizations_with_replaced_bc")
+            _face_oracle(mon, g, q, is_dir2, is_neu2,
+                         sps.csr_matrix(M[discr.upwind_matrix_key]),
+                         sps.csr_matrix(M[discr.bound_transport_dir_matrix_key]),
+                         sps.csr_matrix(M[discr.bound_transport_neu_matrix_key]))
+
     _transport(mon, case, g, is_dir, is_neu, bc)
